@@ -65,6 +65,25 @@ def _specs():
         add("OLEQ/" + fr, "am", lambda F, g, a, m, P, fr=fr: F.OLEQ(a, m, frame=fr, **P.get("oleq", {})).Q)
     add("TRIAD/rotmat", "am", lambda F, g, a, m, P: F.TRIAD(a, m, **P.get("triad", {})).A, "rotmat")
     add("TRIAD/quaternion", "am", lambda F, g, a, m, P: F.TRIAD(a, m, representation="quaternion", **P.get("triad", {})).A)
+    # one instance fed sample by sample, the magnetometer present on some samples and absent on others (the update methods
+    # of these filters take the sample's sensors as arguments, so the architecture may change from one sample to the next)
+    def mixed(new, imu, marg):
+        def fn(F, g, a, m, P):
+            f = new(F, P)
+            q = np.array([1.0, 0.0, 0.0, 0.0])
+            with_mag = np.random.default_rng(len(a)).random(len(a)) < 0.5
+            out = []
+            for t in range(len(a)):
+                q = (marg if with_mag[t] else imu)(f, q, g[t].copy(), a[t].copy(), m[t].copy())
+                out.append(np.array(q, dtype=float))
+            return np.array(out)
+        return fn
+    add("Madgwick/mixed-stream", "gam", mixed(lambda F, P: F.Madgwick(**P.get("madgwick", {})), lambda f, q, g, a, m: f.updateIMU(q, g, a), lambda f, q, g, a, m: f.updateMARG(q, g, a, m)))
+    add("Mahony/mixed-stream", "gam", mixed(lambda F, P: F.Mahony(**P.get("mahony", {})), lambda f, q, g, a, m: f.updateIMU(q, g, a), lambda f, q, g, a, m: f.updateMARG(q, g, a, m)))
+    for fr in ("NED", "ENU"):
+        add("EKF/mixed-stream/" + fr, "gam", mixed(lambda F, P, fr=fr: F.EKF(frame=fr, **P.get("ekf", {}), **P.get("ekf_marg", {})),
+                                                    lambda f, q, g, a, m: f.update(q, g, a), lambda f, q, g, a, m: f.update(q, g, a, m)))
+    add("AQUA/mixed-stream", "gam", mixed(lambda F, P: F.AQUA(**P.get("aqua", {})), lambda f, q, g, a, m: f.updateIMU(q, g, a), lambda f, q, g, a, m: f.updateMARG(q, g, a, m)))
     return S
 
 
